@@ -18,6 +18,10 @@ CLAIMED = {
             "Exhaustive static comparison of the finite set of documented constants, defaults, preset recipes and embedded list entries with the source; preset behaviour reduces to C01/C02/C06 for the extracted recipe.",
             "Trusted: go/constant, go/ssa lowering of composite literals. Not decided: output distribution of presets as such.",
             "DESIGN.md section 3 C16"),
+    "C07": ("counting-schema matching (inclusion-exclusion over the power set of the required family, exact big-integer accumulator) + wiring provenance + log2 mantissa/exponent shape + EFF purity, with a paper lemma",
+            "Partial: decides that the count is computed by an instance of a schema proven exact for every family of (possibly overlapping) required sets and every length, fed exactly the builder's sets and Length, and that the logarithm is taken by the mantissa/exponent split; the numeric equality itself and float32 rounding are not evaluated. The pinned tree's recursion (exact only for disjoint sets) was reported and repaired.",
+            "Trusted: math/big, math.Log2, golang-set PowerSet/Union/Difference/Cardinality, the inclusion-exclusion lemma. Not decided: float rounding; numeric agreement for particular recipes.",
+            "DESIGN.md section 3 C07"),
     "C08": ("map-iteration-order independence rule (cross-key mutation => no carried state), additive-term ledger of Entropy() on the SSA value graph, EFF purity",
             "Static decision that nothing NewWordList stores depends on map iteration order and that WLRecipe.Entropy() is the sum of exactly the documented terms under exactly the documented conditions; holds for all lists/orders/repetitions because it is a property of the code's dataflow.",
             "Trusted: strings.Title pure, math.Log2, Go map-range semantics. Not decided: float32 rounding, numeric values.",
@@ -77,7 +81,6 @@ CLAIMED = {
 }
 
 NOT_APPLICABLE = {
-    "C07": "static analysis cannot decide it: the property equates a float with the cardinality of a combinatorial set for all set families and lengths; whether char_strength.go's recursion is the right inclusion-exclusion is an arithmetic identity over runtime set families with no structural necessary condition short of evaluating it (reading shows it is wrong for overlapping required sets: Allow Letters, Require Digits, RequireSets {\"357\"} gives NaN) — see DESIGN.md section 3 C07",
 }
 
 PENDING_REASON = "check not built yet in this round (see DESIGN.md section 9 build order); no claim is made"
